@@ -337,6 +337,16 @@ def run(F, rep):
 
     # ------------------------------------------------------------ T5 condvar waits can be ended by the other side
     t5(F, rep)
+    # ------------------------------------------------------------ T6 wake-ups are not lost (= C06-Q4/Q5)
+    import rules.c06 as c06
+    sub = type(rep)(rep.pid, rep.tier)
+    c06.run(F, sub)
+    n6 = 0
+    for o in sub.obligations:
+        if o["rule"] in ("C06-Q4", "C06-Q5"):
+            n6 += 1
+            rep.ob("C05-T6", o["instance"], o["ok"], detail=o["detail"], site=o["site"], key=o["key"].replace("C06-", "C05-T6/"))
+    rep.floor("C05-T6", n6, 6, "wait / notify obligations of the queue")
 
 
 def t5(F, rep):
